@@ -42,7 +42,7 @@ ASSUMPTIONS = ["a process crash keeps exactly the effect of the system calls tha
 RULE = ("quick: 120 random store histories of <= 6 operations (message put over sequence numbers 1..4 with payloads of 1..12 "
         "distinct bytes, control put, get, close+reopen; 3 of 4 control-first) x EVERY crash point k = 0..total number of "
         "write/lseek calls; thorough: ALL histories of <= 3 operations over {put 1,2,3 x 2 payload sizes, control put, reopen} and every "
-        "4th history of length 4 (all of them with VERIF_C27_FULL=1; that run exceeds the 15 min budget on a loaded machine) x "
+        "6th history of length 4 (all of them with VERIF_C27_FULL=1; that run exceeds the 15 min budget on a loaded machine) x "
         "every crash point.  After the crash: both files compared byte-wise with the model's disk; reopen; control get, last, get "
         "of every sequence number; two further stores (aimed at the in-flight sequence number and its neighbour); the same reads "
         "again.  non-trivial = a crash strictly inside an operation, or at least two completed stores; distinct = distinct case lines")
@@ -181,7 +181,7 @@ def gen_cases(rng, tier):
         full = os.environ.get("VERIF_C27_FULL") == "1"
         for ln in range(1, 5):
             for idx, combo in enumerate(itertools.product(alphabet, repeat=ln)):
-                if ln == 4 and not full and idx % 4 != 0:
+                if ln == 4 and not full and idx % 6 != 0:
                     serial += 4      # keep payload bytes independent of the sampling
                     continue
                 pre = []
